@@ -21,8 +21,8 @@ func init() {
 			}
 			if i == 0 {
 				// 4099 and 64x65 elements (beyond blocking / parallelisation thresholds)
-				p.Jobs = append(p.Jobs, Job{Harness: "opset13.H_C11_cast", Case: map[string]interface{}{"from": "float32", "to": "int64", "shape": []int{4099}}})
-				p.Jobs = append(p.Jobs, Job{Harness: "opset13.H_C11_cast", Case: map[string]interface{}{"from": "int32", "to": "float32", "shape": []int{64, 65}}})
+				p.Jobs = append(p.Jobs, Job{Harness: "opset13.H_C11_cast", Case: map[string]interface{}{"from": "float32", "to": "int64", "shape": []int{4099}, "concrete": true}})
+				p.Jobs = append(p.Jobs, Job{Harness: "opset13.H_C11_cast", Case: map[string]interface{}{"from": "int32", "to": "float32", "shape": []int{64, 65}, "concrete": true}})
 			}
 			for _, code := range []int{0, 8, 9, 10, 14, 15, 16, 17, -1} {
 				if !th && i%3 != 0 && code != 9 {
